@@ -9,17 +9,21 @@ def hx(v, w=2):
     return '0x%0*X' % (w, v)
 
 class Ids:
-    def __init__(self):
+    """globally unique ids; with odd=rng some ids carry characters that are harmless in YAML plain scalars but not in a printf format"""
+    def __init__(self, odd=None):
         self.n = 0
+        self.odd = odd
 
     def new(self, pfx):
         self.n += 1
+        if self.odd is not None and self.odd.random() < 0.15:
+            return f'{pfx}{self.n}' + self.odd.choice(['_%s', '%s%s%s%s', '_%n', '%d%x%s', '_100%', '%%', '%5$s', '_%.99999d'])
         return f'{pfx}{self.n}'
 
-def gen_config(rng, nboards=None, rich=True, with_initial=True, max_trains=4):
+def gen_config(rng, nboards=None, rich=True, with_initial=True, max_trains=4, wide_dcc=False, odd_ids=False):
     """-> abstract config dict. Everything unambiguous: globally unique ids, per-board unique numbers/ports/addresses/CVs,
     globally unique DCC addresses."""
-    ids = Ids()
+    ids = Ids(rng if odd_ids else None)
     nb = rng.randrange(0, 5) if nboards is None else nboards
     boards = []
     uids = set()
@@ -27,7 +31,11 @@ def gen_config(rng, nboards=None, rich=True, with_initial=True, max_trains=4):
 
     def new_dcc():
         while True:
-            a = (rng.randrange(0, 0x40), rng.randrange(1, 256))     # (addrh & 0x3F, addrl)
+            # (addrh, addrl): the usual 14-bit range, or - wide_dcc - any 16-bit value the documented 0x<hhll> format can express
+            a = (rng.randrange(0, 0x40) if not wide_dcc or rng.random() < 0.4 else rng.choice([0x40, 0x45, 0x7F, 0x80, 0xBF, 0xC0, 0xFF, rng.randrange(0x40, 0x100)]), rng.randrange(1, 256))
+            if wide_dcc and dcc and rng.random() < 0.3:
+                o = rng.choice(sorted(dcc))
+                a = (o[0] ^ rng.choice([0x40, 0x80, 0xC0]), o[1])          # differs from a configured address in the top two bits only: still distinct
             if a not in dcc:
                 dcc.add(a)
                 return a
